@@ -309,6 +309,201 @@ theorem shown_line_screen_is_batch_output (F : Facts) (defsText queryText : List
   rw [h1 hs]
   exact (screens_last_after_clear w₀ ls).1
 
+/-- **Every screen is a batch output** (C11 at program level, all prefixes at once). Aggregate query text without join and
+LIMIT, any format; `ls` the delivered lines, all read as the same texts by the batch reader; follow mode over them ends
+`Ok` having written `w`; for every k from 1 to the number of lines the batch program over the file holding the first k
+lines ends `Ok` and prints `B k`; exact GROUP BY keys. Then nothing is written before the first clear, and EVERY screen
+follow mode has shown is `B k` for some k — the output of the batch program over the prefix of lines consumed when the
+screen was drawn. -/
+theorem follow_screens_are_batch_outputs (F : Facts) (defsText queryText : List Char) (fmt : Print.Format) (single : Bool)
+    (ls : List (List Nat)) (hplain : ∀ x ∈ ls, PlainLine x)
+    (defs : LStmt) (tables : List Table) (a : AggStmt) (fromTable : String) (file : Option String) (t : Table)
+    (hc : classesCover F defsText = true ∧ classesCover F queryText = true)
+    (hd : parseText (lexOracles F) (regexValidFn F) defsText = .stmt defs)
+    (hp : (createPatterns defs).all (fun re => ((Utf8.decode re).bind (regexValidOf F)).isSome) = true)
+    (hq : parseText (lexOracles F) (regexValidFn F) queryText = .stmt (.aggregate a fromTable file none))
+    (ht : addTables defs = some tables) (hg : getTable tables fromTable = some t) (hlim : a.limit = none)
+    (hex : KeysExact (groupKeysOf F.eval a (followEnvs t.info (ls.map (extractedLine F t.defn)))))
+    (B : Nat → List Print.Bytes)
+    (hb : ∀ k, 1 ≤ k → k ≤ ls.length → ∃ n, runText F defsText queryText fmt single [wire (ls.take k)] = .records none n (B k))
+    (w : List TermItem) (hf : followLines F defsText queryText fmt ls none = .ran none w) :
+    (screens w).head? = some [] ∧ ∀ s ∈ (screens w).tail, ∃ k, 1 ≤ k ∧ k ≤ ls.length ∧ s = B k := by
+  -- by induction on the prefix length, downwards from the whole list
+  have key : ∀ m, m ≤ ls.length → ∀ w, followLines F defsText queryText fmt (ls.take m) none = .ran none w →
+      (screens w).head? = some [] ∧ ∀ s ∈ (screens w).tail, ∃ k, 1 ≤ k ∧ k ≤ m ∧ s = B k := by
+    intro m
+    induction m with
+    | zero =>
+      intro _ w hw
+      rw [List.take_zero, followLines_eq F defsText queryText fmt _ none defs _ tables (.aggregate a) fromTable none hc hd hp hq ht rfl,
+        followStatement_plain F tables _ fromTable t hg _ (fun x hx => by cases hx)] at hw
+      simp only [List.all_nil, if_true, List.map_nil] at hw
+      obtain ⟨tf, htf, _, _, _, hfw⟩ := followAnswerOf_eq_ran F fmt _ none w hw
+      simp only [Option.some.injEq, FollowRun.ran.injEq] at htf
+      subst htf
+      have : (runFollowAllT F.eval { stmt := .aggregate a, table := t.info, join := none } none []).calls = [] := by
+        unfold runFollowAllT; split <;> rfl
+      rw [hfw, this]
+      exact ⟨rfl, fun s hs => by cases hs⟩
+    | succ m ih =>
+      intro hm w hw
+      have hlt : m < ls.length := hm
+      have htake : ls.take (m + 1) = ls.take m ++ [ls[m]] := by
+        rw [List.take_succ, List.getElem?_eq_getElem hlt]; rfl
+      rw [htake] at hw
+      obtain ⟨n, hbm⟩ := hb (m + 1) (by omega) hm
+      rw [htake] at hbm
+      have hpl : ∀ x ∈ ls.take m ++ [ls[m]], PlainLine x := by
+        intro x hx; rw [← htake] at hx; exact hplain x (List.mem_of_mem_take hx)
+      have hexm : KeysExact (groupKeysOf F.eval a (followEnvs t.info ((ls.take m ++ [ls[m]]).map (extractedLine F t.defn)))) := by
+        refine keysExact_subset ?_ hex
+        intro k hk
+        rw [← htake] at hk
+        simp only [groupKeysOf, followEnvs, asFile, envsOf, List.mem_filterMap, List.mem_map, List.mem_filter] at hk ⊢
+        obtain ⟨env, ⟨fl, ⟨⟨ln, ⟨x, hx, rfl⟩, rfl⟩, hadm⟩, rfl⟩, hkey⟩ := hk
+        exact ⟨_, ⟨_, ⟨⟨_, ⟨x, List.mem_of_mem_take hx, rfl⟩, rfl⟩, hadm⟩, rfl⟩, hkey⟩
+      obtain ⟨w₀, hw₀, hshown, hnot⟩ := follow_screen_is_batch_output F defsText queryText fmt single (ls.take m) ls[m] hpl
+        defs tables a fromTable file t hc hd hp hq ht hg hlim hexm w hw n (B (m + 1)) hbm
+      obtain ⟨ih1, ih2⟩ := ih (by omega) w₀ hw₀
+      by_cases hs : lineShown F.eval { stmt := .aggregate a, table := t.info, join := none } a (extractedLine F t.defn ls[m])
+      · rw [hshown hs, screens_append_clear]
+        constructor
+        · cases hsc : screens w₀ with
+          | nil => exact absurd hsc (screens_ne_nil _)
+          | cons x xs => rw [hsc] at ih1; simpa using ih1
+        · intro s hs'
+          cases hsc : screens w₀ with
+          | nil => exact absurd hsc (screens_ne_nil _)
+          | cons x xs =>
+            rw [hsc] at hs' ih2
+            simp only [List.cons_append, List.tail_cons, List.mem_append, List.mem_singleton] at hs' ih2
+            rcases hs' with h1 | h1
+            · obtain ⟨k, hk1, hk2, hk3⟩ := ih2 s h1
+              exact ⟨k, hk1, by omega, hk3⟩
+            · exact ⟨m + 1, by omega, by omega, h1⟩
+      · rw [(hnot hs).1]
+        refine ⟨ih1, fun s hs' => ?_⟩
+        obtain ⟨k, hk1, hk2, hk3⟩ := ih2 s hs'
+        exact ⟨k, hk1, by omega, hk3⟩
+  have := key ls.length (Nat.le_refl _) w (by rw [List.take_length]; exact hf)
+  exact this
+
+/-- **… over `followText`**: an uninterrupted schedule that ends caught up (any chunking, any polls) is the run over all
+complete lines of the followed content — so `follow_screen_is_batch_output`, `follow_screens_are_batch_outputs` and
+`follow_select_prints_batch_output` speak about `followText` with `ls` = those lines -/
+theorem quiescent_followText_is_run_over_complete_lines (F : Facts) (defsText queryText : List Char) (fmt : Print.Format)
+    (head : Bool) (initial : List Nat) (ops : List FollowOp) (ks : List Nat) (hi : FollowOp.interrupt ∉ ops)
+    (hn : pending (Props.C10.reached initial head followCap (readerOps ops)) ≤ ks.length) :
+    followText F defsText queryText fmt head initial (ops ++ ks.map .poll) =
+      followLines F defsText queryText fmt (completeLines (followedContent head initial ops)) none := by
+  have n₁ : FollowOp.interrupt ∉ ops ++ ks.map FollowOp.poll := by simp [hi]
+  unfold followText
+  rw [deliveredBy_quiescent head initial ops ks hi hn, interruptPoint_none _ _ _ n₁]
+
+/-- **Failure agreement at the k-th line — the result step** (C11 at program level; partial). The first k−1 delivered
+lines were fed without failure (follow mode over them ended `Ok`, having written `w₀`), the k-th line is admitted and
+`execute_update` accepts it in follow mode, and `execute_update` succeeds on all k lines in batch mode. Then
+`execute_result` fails for the k-th line in follow mode iff the final result of the batch program over the first k lines
+fails, with the SAME error — follow mode then has written `w₀` and nothing more, the batch program prints nothing.
+FULL statement wanted: "follow mode reports an error at line k iff the batch program over the first k lines does", with
+no hypothesis on the updates (`hupd`, `hB`). Missing: the UPDATE step — that `execute_update` fails on the follow-mode
+state iff it fails on the batch-mode state. The two states differ in published PERCENTILE values only (`Sim2`,
+`Lemmas/AggFollowSim.lean`); `cellStep_sim` gives the direction follow ⇒ batch for one cell, the lift through
+`updateAggregates` / `havingUpdates` and the converse direction are not proved. -/
+theorem follow_table_failure_is_batch_table_failure_partial (F : Facts) (defsText queryText : List Char) (fmt : Print.Format)
+    (single : Bool) (pre : List (List Nat)) (l : List Nat) (hplain : ∀ x ∈ pre ++ [l], PlainLine x)
+    (defs : LStmt) (tables : List Table) (a : AggStmt) (fromTable : String) (file : Option String) (t : Table)
+    (hc : classesCover F defsText = true ∧ classesCover F queryText = true)
+    (hd : parseText (lexOracles F) (regexValidFn F) defsText = .stmt defs)
+    (hp : (createPatterns defs).all (fun re => ((Utf8.decode re).bind (regexValidOf F)).isSome) = true)
+    (hq : parseText (lexOracles F) (regexValidFn F) queryText = .stmt (.aggregate a fromTable file none))
+    (ht : addTables defs = some tables) (hg : getTable tables fromTable = some t) (hlim : a.limit = none)
+    (hcov : (pre ++ [l]).all (factsCover F t.defn) = true)
+    (hadm : Sqlgrep.anyResult (extractedLine F t.defn l).row = true)
+    {sf sf1 sb : AggState} {ts0 : List RowOut}
+    (hF : followTables F.eval a (followEnvs t.info (pre.map (extractedLine F t.defn))) {} = .ok (sf, ts0))
+    (hupd : aggUpdateRow F.eval a sf (lineEnv t.info (extractedLine F t.defn l)) = .ok (sf1, true))
+    (hB : aggRun F.eval a (followEnvs t.info ((pre ++ [l]).map (extractedLine F t.defn))) {} = .ok sb)
+    (hex : KeysExact (groupKeysOf F.eval a (followEnvs t.info ((pre ++ [l]).map (extractedLine F t.defn)))))
+    (w₀ : List TermItem) (hw₀ : followLines F defsText queryText fmt pre none = .ran none w₀) (e : ErrKind) :
+    followLines F defsText queryText fmt (pre ++ [l]) none = .ran (some e) w₀ ↔
+      ∃ n, runText F defsText queryText fmt single [wire (pre ++ [l])] = .records (some e) n [] := by
+  have hplain' : ∀ x ∈ pre, PlainLine x := fun x hx => hplain x (by simp [hx])
+  have hcov' : pre.all (factsCover F t.defn) = true := by
+    rw [List.all_append, Bool.and_eq_true] at hcov; exact hcov.1
+  -- the run over the first k-1 lines: its calls are the tables shown, with all renderings shipped
+  rw [followLines_eq F defsText queryText fmt _ none defs _ tables (.aggregate a) fromTable none hc hd hp hq ht rfl,
+    followStatement_plain F tables _ fromTable t hg _ (fun x hx => (hplain' x hx).2.1), if_pos hcov'] at hw₀
+  obtain ⟨tp, htp, _, hrp, _, hwp⟩ := followAnswerOf_eq_ran F fmt _ none w₀ hw₀
+  simp only [Option.some.injEq, FollowRun.ran.injEq] at htp
+  subst htp
+  rw [runFollowAllT_agg F.eval { stmt := .aggregate a, table := t.info, join := none } a rfl rfl hlim
+    (pre.map (extractedLine F t.defn)) hF] at hrp hwp
+  simp only at hrp hwp
+  -- both runs over the k lines in closed form
+  rw [followLines_eq F defsText queryText fmt _ none defs _ tables (.aggregate a) fromTable none hc hd hp hq ht rfl,
+    followStatement_plain F tables _ fromTable t hg _ (fun x hx => (hplain x hx).2.1), if_pos hcov,
+    runText_eq_runLowered F defsText queryText fmt single _ defs _ hc hd hp hq,
+    runLowered_eq_opt F defs _ fmt single _ tables (.aggregate a) fromTable none ht rfl,
+    runStatement_wire F tables _ fromTable t hg _ hplain, if_pos hcov]
+  simp only [answerOfOpt, List.map_append, List.map_cons, List.map_nil]
+  rw [List.map_append, List.map_cons, List.map_nil] at hB hex
+  obtain ⟨hcalls, hstat⟩ := followT_agg_snoc_trace F.eval { stmt := .aggregate a, table := t.info, join := none } a rfl rfl hlim
+    (pre.map (extractedLine F t.defn)) (extractedLine F t.defn l) hadm hF
+  have hagree := followT_agg_step_status F.eval { stmt := .aggregate a, table := t.info, join := none } a rfl rfl hlim none
+    (pre.map (extractedLine F t.defn)) (extractedLine F t.defn l) hadm hF hupd hB hex
+  have hfnp := runFollowAllT_no_panic F.eval { stmt := .aggregate a, table := t.info, join := none } none
+    (pre.map (extractedLine F t.defn) ++ [extractedLine F t.defn l])
+  have hbnp := runBatchT_no_panic F.eval { stmt := .aggregate a, table := t.info, join := none } none
+    [readableFile (pre.map (extractedLine F t.defn) ++ [extractedLine F t.defn l])]
+  have easf : asFile (pre.map (extractedLine F t.defn) ++ [extractedLine F t.defn l]) =
+      readableFile (pre.map (extractedLine F t.defn) ++ [extractedLine F t.defn l]) := rfl
+  rw [easf] at hagree
+  simp only [endStatus, Prod.mk.injEq] at hagree hstat
+  -- when the follow run carries an error the step for the k-th line failed: nothing more was handed to the printer
+  have hfail_calls : ∀ k, (runFollowAllT F.eval { stmt := .aggregate a, table := t.info, join := none } none
+        (pre.map (extractedLine F t.defn) ++ [extractedLine F t.defn l])).out.error = some k →
+      (runFollowAllT F.eval { stmt := .aggregate a, table := t.info, join := none } none
+        (pre.map (extractedLine F t.defn) ++ [extractedLine F t.defn l])).calls =
+        ts0.map (fun r => { result := r, final := true }) := by
+    intro k hk
+    rw [hcalls]
+    cases hs : followStep F.eval a sf (lineEnv t.info (extractedLine F t.defn l)) with
+    | ok p =>
+      rw [hs] at hstat
+      rw [hstat.1] at hk
+      cases hk
+    | error k' => simp
+    | panic k' => simp
+    | oracleMissing k' => simp
+  constructor
+  · intro h
+    obtain ⟨tf, htf, hfs, _, hfe, _⟩ := followAnswerOf_eq_ran F fmt _ (some e) w₀ h
+    simp only [Option.some.injEq, FollowRun.ran.injEq] at htf
+    subst htf
+    have hbe : (runBatchT F.eval { stmt := .aggregate a, table := t.info, join := none } none
+        [readableFile (pre.map (extractedLine F t.defn) ++ [extractedLine F t.defn l])]).out.error = some e := by
+      rw [← hagree.1]; exact hfe.symm
+    have hbs : (runBatchT F.eval { stmt := .aggregate a, table := t.info, join := none } none
+        [readableFile (pre.map (extractedLine F t.defn) ++ [extractedLine F t.defn l])]).out.skipped = none := by
+      rw [← hagree.2.2]; exact hfs
+    have hbc := runBatchT_agg_failed_calls F.eval { stmt := .aggregate a, table := t.info, join := none } a rfl rfl none
+      [readableFile (pre.map (extractedLine F t.defn) ++ [extractedLine F t.defn l])] (by simp [hasFailed, hbe])
+    refine ⟨(runBatchT F.eval { stmt := .aggregate a, table := t.info, join := none } none
+      [readableFile (pre.map (extractedLine F t.defn) ++ [extractedLine F t.defn l])]).out.totalLines, ?_⟩
+    rw [answerOf_records F fmt single _ hbnp (runBatchT_aligned _ _ _ _) hbs (by rw [hbc]; rfl), hbe, hbc]
+    rfl
+  · rintro ⟨n, h⟩
+    obtain ⟨hbs, _, hbe, _, _⟩ := answerOf_eq_records F fmt single _ (some e) n [] h
+    have hfe : (runFollowAllT F.eval { stmt := .aggregate a, table := t.info, join := none } none
+        (pre.map (extractedLine F t.defn) ++ [extractedLine F t.defn l])).out.error = some e := by
+      rw [hagree.1]; exact hbe.symm
+    have hfs : (runFollowAllT F.eval { stmt := .aggregate a, table := t.info, join := none } none
+        (pre.map (extractedLine F t.defn) ++ [extractedLine F t.defn l])).out.skipped = none := by
+      rw [hagree.2.2]; exact hbs
+    have hc' := hfail_calls e hfe
+    rw [followAnswerOf_ran F fmt _ hfnp (runFollowAllT_aligned _ _ _ _) hfs (by rw [hc']; exact hrp), hfe, hc', hwp]
+
 /-! ### C19: an interrupt -/
 
 /-- **An interrupted follow run is the run over the lines delivered before the interrupt** (C19, on delivered lines):
